@@ -27,6 +27,7 @@ macro_rules! dispatch {
             "C11" => $f(&checks::c11::C11 $(, $arg)*),
             "C14" => $f(&checks::c14::C14 $(, $arg)*),
             "C10" => $f(&checks::c10::C10 $(, $arg)*),
+            "C07" => $f(&checks::c07::C07 $(, $arg)*),
             _ => {
                 eprintln!("unknown or not-applicable property {}", $id);
                 std::process::exit(2)
